@@ -52,10 +52,18 @@ func CleanGrid(trace *util.NDJSON) int {
 							}
 						}
 						txn := lungo.NewTransaction(cat)
-						txn.Clean(minSize, maxSize, time.Duration(minAge)*time.Second, time.Duration(maxAge)*time.Second)
+						panicked := func() (p bool) {
+							defer func() {
+								if recover() != nil {
+									p = true
+								}
+							}()
+							txn.Clean(minSize, maxSize, time.Duration(minAge)*time.Second, time.Duration(maxAge)*time.Second)
+							return false
+						}()
 						left := txn.Catalog().Namespaces[lungo.Oplog].Documents.List
 						dropped := len(ages) - len(left)
-						prefix := dropped >= 0
+						prefix := dropped >= 0 && !panicked // a Clean that panics is recorded as "not a removal of the oldest events"
 						for i, doc := range left {
 							if !prefix {
 								break
